@@ -483,29 +483,34 @@ template<typename T> struct Fam {
     return x;
   }
 
-  // stateful intersection rule (documented empty-set semantics of the Theta intersection)
+  // Intersection of the inputs presented so far (order independent, as stated for the Theta intersection in C02):
+  // any empty input => empty result; otherwise theta = min theta_i, entries = common keys below theta with the
+  // summaries folded in presentation order; an exact-mode result without entries is the empty set.
   struct InterModel {
-    bool valid = false, empty = false; uint64_t theta = MAXT; std::map<uint64_t, M> acc;
+    bool valid = false, any_empty = false; uint64_t theta = MAXT; std::map<uint64_t, M> acc;
     void update(const In& in) {
-      if (empty) return;
-      empty = empty || in.empty;
-      theta = empty ? MAXT : std::min(theta, in.theta);
-      if (empty) { acc.clear(); valid = true; return; }
+      if (in.empty) { any_empty = true; acc.clear(); valid = true; return; }
+      theta = std::min(theta, in.theta);
       if (!valid) {
         valid = true;
-        for (auto& kv : in.e) if (kv.first < theta) acc.emplace(kv.first, kv.second);
+        for (auto& kv : in.e) acc.emplace(kv.first, kv.second);
       } else {
         std::map<uint64_t, M> next;
         for (auto& kv : in.e) {
-          if (kv.first >= theta) break;
           auto it = acc.find(kv.first);
           if (it != acc.end()) { M mm = it->second; T::m_merge(mm, kv.second); next.emplace(kv.first, std::move(mm)); }
         }
         acc.swap(next);
       }
-      if (acc.empty() && theta == MAXT) empty = true;
     }
-    Exp<M> result() const { Exp<M> x; x.theta = theta; x.empty = empty; for (auto& kv : acc) x.e.push_back(kv); return x; }
+    Exp<M> result() const {
+      Exp<M> x;
+      if (any_empty) { x.empty = true; x.theta = MAXT; return x; }
+      x.theta = theta;
+      for (auto& kv : acc) { if (kv.first >= theta) break; x.e.push_back(kv); }
+      x.empty = x.e.empty() && theta == MAXT;
+      return x;
+    }
   };
 
   static Exp<M> model_a_not_b(const In& a, const In& b) {
